@@ -38,6 +38,11 @@ pub trait Oracle: Sync {
     fn per_config(&self) -> bool {
         false
     }
+    /// Also evaluate candidates that have syntax errors (C13's refusal / no-panic part). For those the
+    /// engine does not format; it calls the checker once per configuration with an empty output.
+    fn wants_illformed(&self) -> bool {
+        false
+    }
     /// Is this well-formed input inside the oracle's domain? (e.g. C02 wants compilable programs)
     fn admits(&self, _input: &str, _src: &SyntaxNode) -> bool {
         true
@@ -54,6 +59,8 @@ pub enum Widths {
     All { cap: usize },
     /// a single width far beyond any possible line
     Huge,
+    /// C12: the no-wrap width for `tabs_full`, then every width for `tabs_sparse`
+    HugeThenAll { cap: usize },
     Fixed(Vec<usize>),
 }
 
@@ -108,6 +115,18 @@ impl CfgPolicy {
                     let w = 10_000 * (1 + input.len());
                     for &t in self.tabs_full.iter().chain(self.tabs_sparse.iter()) {
                         res.push(Cfg { max_width: w, tab_spaces: t, reorder });
+                    }
+                }
+                Widths::HugeThenAll { cap } => {
+                    let w = 10_000 * (1 + input.len());
+                    for &t in self.tabs_full.iter() {
+                        res.push(Cfg { max_width: w, tab_spaces: t, reorder });
+                    }
+                    let top = ((input.len() as f64 / 0.6).ceil() as usize + 5).min(*cap);
+                    for &t in self.tabs_sparse.iter() {
+                        for w in 0..=top {
+                            res.push(Cfg { max_width: w, tab_spaces: t, reorder });
+                        }
                     }
                 }
                 Widths::Fixed(ws) => {
@@ -208,6 +227,20 @@ pub fn eval_input(
             fails.push((f, c.clone()));
         }
     };
+    if src.erroneous() {
+        for cfg in cfgs {
+            counters.1 += 1;
+            match guarded(|| checker(cfg, "")) {
+                Ok(fs) => {
+                    for f in fs {
+                        push(&mut fails, f, cfg);
+                    }
+                }
+                Err(msg) => push(&mut fails, Fail::new("no-output:panic", format!("panic: {msg}")), cfg),
+            }
+        }
+        return Verdict { fails, differs: false };
+    }
     for cfg in cfgs {
         counters.0 += 1;
         let r = guarded(|| subject.format(input, cfg));
@@ -330,7 +363,7 @@ pub fn run(spec: &SweepSpec, subject: &dyn Subject, oracle: &dyn Oracle) -> Swee
                         }
                         let (label, text) = &level.inputs[i];
                         let src = syntax::parse(text);
-                        if src.erroneous() {
+                        if src.erroneous() && !oracle.wants_illformed() {
                             acc.rejected += 1;
                             continue;
                         }
@@ -457,7 +490,7 @@ fn eval_one(
     let mut v = v;
     // the sweeps call format_source on a Source with a fixed FileId; tie that to the public
     // entry point format_content once per input
-    if let Some(c0) = cfgs.first() {
+    if let Some(c0) = cfgs.first().filter(|_| !src.erroneous()) {
         let a = guarded(|| subject.format_content(text, c0));
         let b = guarded(|| subject.format(text, c0));
         acc.format_calls += 1;
@@ -509,6 +542,7 @@ fn skeleton_unit(
         acc.rejected += 1;
         return;
     }
+    let _ = oracle.wants_illformed();
     let mut base_clauses: Vec<String> = vec![];
     if oracle.admits(&base, &src) {
         let v = eval_one(spec, subject, oracle, &base, &src, acc, &desc, false);
@@ -634,13 +668,40 @@ fn skeleton_unit(
     }
 }
 
-/// Build the skeleton list for contexts x spine depth x sizes.
+#[derive(Clone, Copy, PartialEq, Eq)]
+pub enum SpineFilter {
+    /// no ugly productions anywhere
+    Clean,
+    /// the innermost production is from the ugly payload alphabet, the others are clean
+    UglyLast,
+    /// like Clean, and the innermost production has no holes (a literal-like leaf)
+    LeafLast,
+}
+
 pub fn skeletons(model: &Model, ctxs: &[&str], ks: &[usize], sizes: &[model::Size]) -> Vec<Skeleton> {
+    skeletons_f(model, ctxs, ks, sizes, SpineFilter::Clean)
+}
+
+/// Build the skeleton list for contexts x spine depth x sizes.
+pub fn skeletons_f(model: &Model, ctxs: &[&str], ks: &[usize], sizes: &[model::Size], filter: SpineFilter) -> Vec<Skeleton> {
     let mut res = vec![];
     for c in ctxs {
         let ci = model.ctx_index(c);
         for &k in ks {
             for spine in model.spines(ci, k) {
+                let n = spine.len();
+                let ok = match filter {
+                    SpineFilter::Clean => spine.iter().all(|(p, _)| !model.prods[*p].ugly),
+                    SpineFilter::UglyLast => {
+                        n > 0 && model.prods[spine[n - 1].0].ugly && spine[..n - 1].iter().all(|(p, _)| !model.prods[*p].ugly)
+                    }
+                    SpineFilter::LeafLast => {
+                        n > 0 && model.prods[spine[n - 1].0].holes == 0 && spine.iter().all(|(p, _)| !model.prods[*p].ugly)
+                    }
+                };
+                if !ok {
+                    continue;
+                }
                 for &size in sizes {
                     res.push(Skeleton { ctx: ci, spine: spine.clone(), size });
                 }
